@@ -74,66 +74,67 @@ func (g *gen) dur(secs int64) int64 {
 
 // bias: the knobs a profile turns.
 type bias struct {
-	clients     [2]int
-	ops         [2]int
-	resources   [2]int
-	plans       [2]int
-	backends    []string
-	loggers     []string
-	faultFree   bool
-	sched       []string
-	stallPct    int
-	lifetimes   []int64 // seconds
-	freshKinds  []int   // weights: max-age, expires, heuristic, none
-	pAgeHdr     int
-	pDateOdd    int
-	pHuge       int
-	pSWR        int
-	pSIE        int
-	pMustReval  int
-	pNoCache    int
-	pNoCacheQ   int
-	pNoStore    int
-	pImmutable  int
-	pVary       int
-	pVaryStar   int
-	pVaryFlip   int // chance that plans of one resource differ in Vary
-	statuses    []int
-	pErrStatus  int
-	pNetFault   int
-	pLatency    int
-	pBigBody    int
-	pFraming    int
-	pHop        int
-	pChange     int
-	pNo304      int
-	pValidator  int
-	pReqCC      int
-	reqCCs      []string
-	pUnsafe     int
-	pOtherMeth  int
-	pRange      int
-	pCond       int
-	pCancel     int
-	pPoison     int
-	pPartial    int
-	pRespell    int
-	pSelHdr     int
-	pRestart    int
-	storeFaults int // max number of store faults
-	diskFaults  int
-	thinkFocus  int // percent of think times drawn from boundary set
-	pStoreLat   int
-	swrTimeouts []int64 // ns; -1 = unset
-	maxBody     int
-	pLoc        int
-	pair        bool
-	crashy      bool
-	pCorrupt    int
-	pLongURL    int
-	pMultiLine  int
-	pMultiField int
-	thinks      []int64
+	clients        [2]int
+	ops            [2]int
+	resources      [2]int
+	plans          [2]int
+	backends       []string
+	loggers        []string
+	faultFree      bool
+	readFaultsOnly bool // store faults are transient read errors only (err / timeout on Get)
+	sched          []string
+	stallPct       int
+	lifetimes      []int64 // seconds
+	freshKinds     []int   // weights: max-age, expires, heuristic, none
+	pAgeHdr        int
+	pDateOdd       int
+	pHuge          int
+	pSWR           int
+	pSIE           int
+	pMustReval     int
+	pNoCache       int
+	pNoCacheQ      int
+	pNoStore       int
+	pImmutable     int
+	pVary          int
+	pVaryStar      int
+	pVaryFlip      int // chance that plans of one resource differ in Vary
+	statuses       []int
+	pErrStatus     int
+	pNetFault      int
+	pLatency       int
+	pBigBody       int
+	pFraming       int
+	pHop           int
+	pChange        int
+	pNo304         int
+	pValidator     int
+	pReqCC         int
+	reqCCs         []string
+	pUnsafe        int
+	pOtherMeth     int
+	pRange         int
+	pCond          int
+	pCancel        int
+	pPoison        int
+	pPartial       int
+	pRespell       int
+	pSelHdr        int
+	pRestart       int
+	storeFaults    int // max number of store faults
+	diskFaults     int
+	thinkFocus     int // percent of think times drawn from boundary set
+	pStoreLat      int
+	swrTimeouts    []int64 // ns; -1 = unset
+	maxBody        int
+	pLoc           int
+	pair           bool
+	crashy         bool
+	pCorrupt       int
+	pLongURL       int
+	pMultiLine     int
+	pMultiField    int
+	thinks         []int64
 }
 
 func defaultBias() bias {
@@ -423,6 +424,11 @@ func (g *gen) think(b *bias, res *Resource) int64 {
 			life = pick(g, b.lifetimes...)
 		}
 		cands = append(cands, life-1, life, life+1, life/2)
+		if lat := p.LatNs / int64(time.Second); lat >= 2 {
+			// a slow origin: the response delay counts towards the age once; the last seconds of freshness
+			// are where counting it twice, or not at all, shows
+			cands = append(cands, life-lat-2, life-2*lat+1, life-lat+1)
+		}
 		for _, k := range []string{"stale-while-revalidate", "stale-if-error"} {
 			if lo, _, pr, ok := cc.delta(k); pr && ok {
 				cands = append(cands, life+lo-1, life+lo, life+lo+1, life+lo/2)
@@ -572,16 +578,22 @@ func (g *gen) base(profile string, seed uint64, b *bias) *Scenario {
 		n := g.IntN(b.storeFaults + 1)
 		for i := 0; i < n; i++ {
 			k := pick(g, "get", "get", "set", "delete", "any")
+			if b.readFaultsOnly {
+				k = "get"
+			}
 			f := StoreFault{OpKind: k, Nth: g.IntN(12), Arg: g.IntN(5000)}
 			switch k {
 			case "get":
-				f.Kind = pick(g, "err", "notexist", "trunc", "flip", "corpus", "corpus", "foreign")
+				f.Kind = pick(g, "err", "timeout", "notexist", "trunc", "flip", "corpus", "corpus", "foreign")
+				if b.readFaultsOnly {
+					f.Kind = pick(g, "err", "timeout")
+				}
 			case "set":
-				f.Kind = pick(g, "err", "err-applied")
+				f.Kind = pick(g, "err", "timeout", "err-applied")
 			case "delete":
-				f.Kind = "err"
+				f.Kind = pick(g, "err", "timeout")
 			default:
-				f.Kind = pick(g, "err", "corpus", "trunc")
+				f.Kind = pick(g, "err", "timeout", "corpus", "trunc")
 			}
 			scn.StoreFaults = append(scn.StoreFaults, f)
 		}
@@ -642,6 +654,10 @@ var profiles = map[string]func(b *bias, g *gen){
 		b.pNoCache, b.pNoStore, b.pMustReval, b.pErrStatus = 1, 1, 2, 10
 		b.clients = [2]int{1, 2}
 		b.statuses = []int{200, 200, 200, 201, 204, 303, 404}
+		if g.chance(35) {
+			// a transient read error of the store while the unsafe request is handled must not save the entry
+			b.faultFree, b.readFaultsOnly, b.storeFaults, b.diskFaults = false, true, 2, 0
+		}
 	},
 	"writeback": func(b *bias, g *gen) {
 		b.pMultiField = 40
